@@ -5,6 +5,22 @@ import glob, json, os, re, shutil, sys
 OUT = "/verif/seeded"
 DUP = {("C14", "2"): "C14-2", ("C06", "2"): "C06-1", ("C19", "2"): "C19-2", ("C01", "1"): "C01-C021", ("C07", "1"): "C07-1",
        ("C10", "1"): "C10-1", ("C10", "2"): "C10-2", ("C03", "1"): "C03-1", ("C11", "1"): "C11-2", ("C13", "1"): "C13-1", ("C12", "1"): "C12-1"}
+# what the state committed at the start of the second session did with the seed (only entries that were not simply "caught")
+FIRST = {
+ ("C14", "1"): "missed (glyph harness atlas width always a multiple of the cell width)",
+ ("C20", "1"): "missed (Debug output not covered) - still missed",
+ ("C06", "1"): "missed (ellipse draw arms thorough only; first run also disturbed by an out-of-memory burst)",
+ ("C19", "1"): "refuted only by c19_triangle_row, added in this session while the agent was working",
+ ("C05", "2"): "refuted by c19_triangle_row, added in this session (c05_triangle_contains alone: 15 min harness)",
+ ("C01", "2"): "missed (pixels()==draw() only for stroke areas <= 3x2)",
+ ("C02", "1"): "refuted only by c02_thick_segment_edges_box, added in this session",
+ ("C07", "2"): "refuted only by c07_transform_impls_open_shapes_images_text, added in this session",
+ ("C17", "1"): "undecided (harness code did not compile against the changed signature) until the runner tolerated it",
+ ("C17", "2"): "missed (no overflow-free domain lemma in the quick tier)",
+ ("C16", "1"): "undecided (lost anchor of the contracted helper `overlaps`) until the weaver tolerated it",
+ ("C08", "1"): "refuted only by c08_dotted_rectangle_thin_is_total, added in this session",
+ ("C05", "1"): "missed (rounded rectangle rows with four different radii thorough only)",
+}
 rows = []
 for d in sorted(glob.glob("/tmp/seed-out/C*/[0-9]")):
     prop, n = d.split("/")[-2], d.split("/")[-1]
@@ -43,6 +59,7 @@ for d in sorted(glob.glob("/tmp/seed-out/C*/[0-9]")):
                             "patched_demo": patched_demo,
                             "commands": "tools/seed_confirm.sh: cargo test --offline --test seed_demo (clean) ; git apply patch.diff ; cargo test --workspace --offline ; cargo test --offline --test seed_demo (patched)"},
         "checks_run": checks,
+        "first_pass_on_the_state_before_strengthening": FIRST.get((prop, n), "refuted by obligations that already existed"),
         "how_checked": "tools/seed_check.sh: patch applied in the scratch worktree, VERIF_REPO=<worktree> ./check <prop> --no-evidence (never applied to /repo)",
     }
     json.dump(meta, open(os.path.join(dst, "meta.json"), "w"), indent=1)
